@@ -7,7 +7,7 @@ import sys
 
 NCHUNK = 16
 MODES = ['INT', 'REF', 'CREF', 'RREF', 'PTR', 'VAL', 'UPV', 'UPR']
-PTYPE = {'CREFRET': 'const Cnt&', 'RVRET': 'Cnt2&&', 'INT': 'int', 'REF': 'Cnt&', 'CREF': 'const Cnt&', 'RREF': 'Cnt&&', 'PTR': 'Cnt*', 'VAL': 'Cnt', 'UPV': 'std::unique_ptr<int>', 'UPR': 'std::unique_ptr<int>&&'}
+PTYPE = {'CREFRET': 'const Cnt&', 'RVRET': 'Cnt2&&', 'LVRET': 'Cnt2&', 'INT': 'int', 'REF': 'Cnt&', 'CREF': 'const Cnt&', 'RREF': 'Cnt&&', 'PTR': 'Cnt*', 'VAL': 'Cnt', 'UPV': 'std::unique_ptr<int>', 'UPR': 'std::unique_ptr<int>&&'}
 
 
 def others_cond(n, p):
@@ -21,7 +21,7 @@ def emit(n, p, mode, kind):
     types = ['int'] * n
     if n:
         types[p - 1] = PTYPE[mode]
-    ret = 'Cnt&' if mode == 'REF' else ('const Cnt&' if mode == 'CREFRET' else ('Cnt2' if mode == 'RVRET' else 'int'))
+    ret = 'Cnt&' if mode == 'REF' else ('const Cnt&' if mode == 'CREFRET' else ('Cnt2' if mode in ('RVRET', 'LVRET') else 'int'))
     sig = '%s(%s)' % (ret, ', '.join(types))
     wild = ', '.join(['trompeloeil::_'] * n)
     decl = []
@@ -70,8 +70,9 @@ def emit(n, p, mode, kind):
             body.append('  Cnt arg(%d); Cnt::reset(); const void* addr = nullptr; (void)addr;' % v)
         if mode == 'REF':
             args[p - 1] = 'arg'
-            body += ['  { REQUIRE_CALL(m, f(%s)).LR_WITH(&_%d == &arg && %s).LR_SIDE_EFFECT(_%d.v = 777).LR_SIDE_EFFECT(addr = &_%d).LR_RETURN(_%d);' % (wild, p, oc, p, p, p),
+            body += ['  { int cw = -1, cs = -1; REQUIRE_CALL(m, f(%s)).LR_WITH(&_%d == &arg && %s).LR_WITH((cw = constness(_%d), true)).LR_SIDE_EFFECT(cs = constness(_%d)).LR_SIDE_EFFECT(_%d.v = 777).LR_SIDE_EFFECT(addr = &_%d).LR_RETURN(_%d);' % (wild, p, oc, p, p, p, p, p),
                      '    Cnt& r = %s.f(%s);' % (callobj, ', '.join(args)),
+                     chk('a T& parameter is a non-const lvalue inside WITH', 'cw', 0), chk('a T& parameter is a non-const lvalue inside SIDE_EFFECT', 'cs', 0),
                      chk('WITH saw the caller\'s object (address identity)', '(int)(addr == &arg)', 1), chk('write through _p visible to the caller', 'arg.v', 777),
                      chk('reference returned from _p aliases the caller\'s object', '(int)(&r == &arg)', 1), chk('no copies', 'Cnt::copies', 0), chk('no moves', 'Cnt::moves', 0), '  }']
         elif mode == 'CREF':
@@ -101,6 +102,17 @@ def emit(n, p, mode, kind):
             body += ['  { REQUIRE_CALL(m, f(%s)).WITH(%s).RETURN(_%d);' % (wild, oc, p),
                      '    const Cnt& r = %s.f(%s);' % (callobj, ', '.join(args)),
                      chk('const reference returned from a const& parameter aliases the caller\'s object', '(int)(&r == &carg)', 1), chk('no copies', 'Cnt::copies', 0), '  }']
+        elif mode == 'LVRET':
+            body.insert(len(body), '  Cnt2 larg(%d); Cnt2::reset();' % v)
+            args[p - 1] = 'larg'
+            body += ['  { REQUIRE_CALL(m, f(%s)).WITH(%s).RETURN(_%d).TIMES(2);' % (wild, oc, p),
+                     '    Cnt2 r = %s.f(%s);' % (callobj, ', '.join(args)),
+                     chk('RETURN(_p) of a T& parameter returns a copy (value)', 'r.v', v), chk('the caller\'s object is intact after RETURN(_p)', 'larg.v', v),
+                     '    Cnt2 r2 = %s.f(%s);' % (callobj, ', '.join(args)),
+                     chk('second call: same value again', 'r2.v', v), chk('the caller\'s object was never moved from', 'larg.v', v), '  }',
+                     '  { Cnt2 local(%d); REQUIRE_CALL(m, f(%s)).LR_RETURN(local).TIMES(2);' % (v + 1, wild),
+                     '    Cnt2 r = %s.f(%s); Cnt2 r2 = %s.f(%s);' % (callobj, ', '.join(args), callobj, ', '.join(args)),
+                     chk('LR_RETURN(local) returns a copy each time', 'r.v * 1000 + r2.v', (v + 1) * 1000 + v + 1), chk('the local is intact', 'local.v', v + 1), '  }']
         elif mode == 'RVRET':
             body.insert(len(body), '  Cnt2 rarg(%d); Cnt2::reset();' % v)
             args[p - 1] = 'std::move(rarg)'
@@ -138,7 +150,7 @@ def main():
                 for kind in ('const', 'overload', 'iface'):
                     for mode in ('INT', 'REF'):
                         items.append((n, p, mode, kind))
-                for mode in ('CREFRET', 'RVRET'):
+                for mode in ('CREFRET', 'RVRET', 'LVRET'):
                     for kind in ('plain', 'const', 'iface'):
                         items.append((n, p, mode, kind))
     names = []
